@@ -86,13 +86,16 @@ def seeds_for(ctx, prop, n, stream):
     return [base * 1000 % (2 ** 40) + i for i in range(n)]
 
 
-def load_corpus(prop):
+def load_corpus(prop, stage=1):
+    """corpus/<prop>/*.json: fixed histories.  Stage 1 files (default) are compared with the model in the correspondence run; files with
+    "stage": 2 (many-to-many, one-to-one, composite keys) are run with the implementation-side oracles only, in the search."""
     d = os.path.join(vlib.VERIF, 'corpus', prop)
     cases = []
     if os.path.isdir(d):
         for f in sorted(os.listdir(d)):
             if f.endswith('.json'):
                 j = json.load(open(os.path.join(d, f)))
+                if j.get('stage', 1) != stage: continue
                 cases.append({'schema': j['schema'], 'ops': j['ops'], 'seed': 'corpus:' + f})
     return cases
 
@@ -162,7 +165,7 @@ def search(ctx, deep, prop, n_quick=150, n_deep=6000):
     hs, _ = gen_histories(seeds_for(ctx, prop, n, 1), jobs=4)
     hs2, _ = gen_histories(seeds_for(ctx, prop, n, 2), jobs=4, stage=2)
     n_stage1 = len(hs)
-    hs = hs + hs2
+    hs = hs + hs2 + run_fixed(load_corpus(prop, stage=2))
     failures, seen, nontrivial = [], {}, set()
     dist = {'histories': len(hs), 'stage1_histories': n_stage1, 'stage2_histories': len(hs) - n_stage1, 'violating_histories': 0,
             'keys': collections.Counter(), 'ops': 0}
